@@ -197,6 +197,25 @@ impl Blob
         );
     }
 
+    /*  Forgets what was remembered about the files at the indices for which `replaced` holds.
+        After a file has been replaced at its path (restored from the cache, downloaded), the
+        remembered ticket and timestamp describe the file that used to be there, and must not
+        be allowed to vouch for the new one through the timestamp optimization. */
+    pub fn forget_file_states
+    (
+        self : &mut Self,
+        replaced : impl Fn(usize) -> bool
+    )
+    {
+        for (i, info) in self.file_infos.iter_mut().enumerate()
+        {
+            if replaced(i)
+            {
+                info.file_state = FileState::empty();
+            }
+        }
+    }
+
     pub fn get_file_infos
     (
         self : &Self
